@@ -291,7 +291,35 @@ pub fn run_accept(case: &AcceptCase) -> Outcome {
         Listener::Unix(l, _) => l.as_raw_fd(),
     };
     let mut h = rt.enter(|| rt.spawn(acceptor(l, case.clone(), book.clone(), log.clone())));
-    let finished = drive(&rt, || log.failed() || h.is_finished() || book.borrow().done, Duration::from_secs(std::env::var("VERIF_WATCHDOG").ok().and_then(|v| v.parse().ok()).unwrap_or(120)));
+    // A connection that left the listen queue must be yielded: when every started client is connected,
+    // the listen queue is empty and the acceptor is nevertheless still waiting for a connection over
+    // 20 consecutive loop turns, a connection was taken from the kernel and never delivered.
+    let mut stalled = 0u32;
+    let finished = drive(
+        &rt,
+        || {
+            if log.failed() || h.is_finished() || book.borrow().done {
+                return true;
+            }
+            let b = book.borrow();
+            let mut pfd = libc::pollfd { fd: lfd, events: libc::POLLIN, revents: 0 };
+            let queue_empty = unsafe { libc::poll(&mut pfd, 1, 0) } == 0;
+            if !b.launched.is_empty() && b.clients_connected == b.launched.len() && b.accepted.len() < b.launched.len() && queue_empty {
+                stalled += 1;
+            } else {
+                stalled = 0;
+            }
+            if stalled >= 20 {
+                log.violate(
+                    "C14/accept/connection-taken-but-never-yielded",
+                    format!("{} clients are connected, the listen queue is empty, but only {} connections were yielded and the acceptor keeps waiting: {:?}", b.launched.len(), b.accepted.len(), b.accepted),
+                );
+                return true;
+            }
+            false
+        },
+        Duration::from_secs(std::env::var("VERIF_WATCHDOG").ok().and_then(|v| v.parse().ok()).unwrap_or(120)),
+    );
     if finished && !log.failed() {
         // let the clients run to their end so that nothing is in flight when the runtime goes
         drive(&rt, || book.borrow().clients_finished >= book.borrow().clients_connected && book.borrow().clients_connected >= book.borrow().launched.len(), Duration::from_secs(20));
